@@ -115,6 +115,9 @@ func pairCase(a, b *Value, src string, i, j int) *UPEvent {
 	})
 	tw.Emit(ev)
 	stat("UP:" + a.K)
+	if strings.HasPrefix(src, "tlc") {
+		stat("tlc-cases")
+	}
 	if ev.Same {
 		stat("UP:same")
 	}
@@ -218,6 +221,9 @@ func stableCase(sp *VSpec, src string) {
 			ev.U = append(ev.U, res...)
 		}
 	})
+	if strings.HasPrefix(src, "tlc") {
+		stat("tlc-cases")
+	}
 	countCase("US\x00"+v.K+string(key), true)
 	usItems = append(usItems, usItem{sp, ev})
 }
@@ -419,7 +425,19 @@ func runUUID(candFile string) {
 		case "undef":
 			stableCase(univ.Values[c.I-1], "tlc")
 			stat("cands")
+		case "pairv":
+			a, err1 := build(c.V)
+			b, err2 := build(c.W)
+			if err1 == nil && err2 == nil && a.K == b.K {
+				pairCase(a, b, "replay", 0, 0)
+			}
+		case "stable":
+			stableCase(c.V, "replay")
 		}
+	}
+	if onlyCands {
+		flushStable()
+		return
 	}
 	// 2. all pairs of the universe within each kind (including each value against a second,
 	//    independent construction of itself)
